@@ -145,6 +145,13 @@ func RunSingleModelJSON(r io.Reader, w io.Writer, splitOutputs bool) {
 	}
 
 	defer func() {
+		if r := recover(); r != nil {
+			// a panic while setting up or running the model in this goroutine (for example
+			// parameter values for which the initial states cannot be allocated) is a
+			// problem of the request: describe it instead of propagating it
+			log(fmt.Sprintf("Error: %v", r))
+			results = RunResults{}
+		}
 		encodeResults(w, runLogs, results, description, splitOutputs)
 	}()
 
